@@ -427,6 +427,18 @@ func run(c *vk.Ctx) {
 					}
 					b.WriteString(`]}`)
 					send(route, method, base, b.String(), "limitbatch", true)
+					// the dimension limit holds for every vector of a batch too (second item, so
+					// that the first one looks fine)
+					var d strings.Builder
+					d.WriteString(`{"index_name":"nsA","vectors":[{"id":"d0","vector":[1,0]},{"id":"d1","vector":[`)
+					for i := 0; i < 65537; i++ {
+						if i > 0 {
+							d.WriteByte(',')
+						}
+						d.WriteByte('0')
+					}
+					d.WriteString(`]}]}`)
+					send(route, method, base, d.String(), "limitdim", true)
 				}
 			}
 		}
